@@ -117,6 +117,12 @@ func (eng *Engine) addContracts(cf *ContractFile) {
 	}
 	eng.Guarded = append(eng.Guarded, cf.Guarded...)
 	eng.Writers = append(eng.Writers, cf.Writers...)
+	for k, v := range cf.GlobalFacts {
+		if eng.GlobalFacts == nil {
+			eng.GlobalFacts = map[string]Expr{}
+		}
+		eng.GlobalFacts[k] = v
+	}
 }
 
 func (eng *Engine) indexFn(fn *ssa.Function) {
